@@ -53,6 +53,7 @@ class Ctx:
         self.tier = tier
         self.obligations = []
         self._clause = None
+        self._hint = None
         self.notes = []
 
     # ---- bookkeeping -----------------------------------------------------------------
@@ -479,6 +480,8 @@ class Ctx:
         for cn in crates:
             c = self.F.crate(cn)
             for b in c["bodies"]:
+                if not b.may_call(callee):
+                    continue
                 for cl in b.calls:
                     if cl.bb not in b.live:
                         continue
@@ -526,6 +529,8 @@ class Ctx:
         for cn in crates:
             c = self.F.crate(cn)
             for b in c["bodies"]:
+                if not (b.callees & fns.keys()):
+                    continue
                 for cl in b.calls:
                     if cl.bb not in b.live or cl.path not in fns:
                         continue
@@ -569,6 +574,8 @@ class Ctx:
         for cn in crates:
             c = self.F.crate(cn)
             for b in c["bodies"]:
+                if adt not in b.adts_touched:
+                    continue
                 for bb, j, s in b.stmts():
                     if bb not in b.live or s["k"] != "assign":
                         continue
@@ -617,6 +624,7 @@ class Ctx:
     # ---- dispatch ------------------------------------------------------------------------
     def enum_switches(self, body, enum_q):
         """switch blocks on the discriminant of a place of enum type enum_q -> (bb, Switch, discr stmt)"""
+        self._hint = body.crate
         out = []
         for i in sorted(body.live):
             t = body.blocks[i]["t"]
@@ -630,21 +638,59 @@ class Ctx:
                     out.append((i, Switch(body, i), d[4]))
         return out
 
+    def discr_switches(self, body, adt_q, spec, depth=1):
+        """switches on the discriminant of a place of type adt_q whose origins match spec ->
+        list of Switch"""
+        orig = Origins(body, depth)
+        out = []
+        for i in sorted(body.live):
+            t = body.blocks[i]["t"]
+            if t["k"] != "switch":
+                continue
+            dl = op_local(t["d"])
+            if dl is None:
+                continue
+            for d in body.defs.get(dl, []):
+                if d[0] == "assign" and d[4]["k"] == "discr" and d[4].get("adt") == adt_q:
+                    at = set()
+                    orig._place(d[4]["pl"], depth, at, set())
+                    if atom_match(at, spec):
+                        out.append(Switch(body, i))
+        return out
+
+    def deref_writes(self, body, spec, depth=1):
+        """assignments `(*p) = v` where p originates from spec (e.g. a mutex guard obtained
+        from a given field) -> list of (bb, stmt)"""
+        orig = Origins(body, depth)
+        out = []
+        for bb, j, s in body.stmts():
+            if bb not in body.live or s["k"] != "assign":
+                continue
+            pr = s["pl"].get("p", [])
+            if not pr or pr[0] != "*":
+                continue
+            at = set()
+            orig._local(s["pl"]["l"], s["pl"], depth, at, set())
+            if atom_match(at, spec):
+                out.append((bb, s))
+        return out
+
     def variant_index(self, enum_q, variant):
-        a = self.F.adt(enum_q)
+        a = self.F.adt(enum_q, self._hint)
         for i, v in enumerate(a["variants"]):
             if v["n"] == variant:
                 return i
         raise AnchorMissing(f"variant {enum_q}::{variant}")
 
     def variants(self, enum_q):
-        return [v["n"] for v in self.F.adt(enum_q)["variants"]]
+        return [v["n"] for v in self.F.adt(enum_q, self._hint)["variants"]]
 
     def dispatch_total(self, oid, body, enum_q, detail="", min_switches=1, allow_otherwise_to=None):
         """DISPATCH (no wildcard): every switch on enum_q's discriminant in body lists every
         variant explicitly, or its otherwise edge goes to an `unreachable` block.
         allow_otherwise_to: predicate(body, target_bb) accepting a benign otherwise target
         (e.g. an error exit)."""
+        self._hint = body.crate
         sws = self.enum_switches(body, enum_q)
         if len(sws) < min_switches:
             return self.add(oid, "DISPATCH", False, f"expected >= {min_switches} match on {enum_q} in {body.defq}, found {len(sws)}: {detail}",
@@ -659,7 +705,7 @@ class Ctx:
             if not fine and allow_otherwise_to is not None and allow_otherwise_to(body, other):
                 fine = True
             if not fine:
-                missing = [v["n"] for i, v in enumerate(self.F.adt(enum_q)["variants"]) if i not in vals]
+                missing = [v["n"] for i, v in enumerate(self.F.adt(enum_q, body.crate)["variants"]) if i not in vals]
                 self.add(oid, "DISPATCH", False,
                          f"match on {enum_q} in {body.defq} (line {sw.term.get('line')}) has a wildcard/default arm covering {missing}: {detail}",
                          sites=[f"{body.file}:{sw.term.get('line')}"], site_key=f"{body.defq}:wildcard")
@@ -669,10 +715,44 @@ class Ctx:
                      sites=[f"{body.file}:{sw.term.get('line')}" for (_, sw, _) in sws], site_key=f"{body.defq}")
         return ok_all
 
+    def match_arms(self, body, enum_q):
+        """arm code per variant for the matches on enum_q in body: variant -> set of blocks
+        reachable after taking that variant's edge and before the point common to all variants
+        (join / loop continuation). Or-patterns give the same arm to several variants."""
+        from collections import defaultdict
+        self._hint = body.crate
+        variants = self.variants(enum_q)
+        arms = defaultdict(set)
+        for (bb, sw, _) in self.enum_switches(body, enum_q):
+            R = {}
+            for i, v in enumerate(variants):
+                ts = [self._edge_target(body, (bb, lab)) for lab in sw.edge_for_value(i)]
+                R[v] = body.reach([t for t in ts if t is not None], cut_blocks=[bb])
+            common = set.intersection(*R.values()) if len(R) > 1 else set()
+            for v in variants:
+                arms[v] |= (R[v] - common)
+        return arms
+
+    def field_ops(self, body, blocks, adt_q, depth=0):
+        """calls in `blocks` whose receiver (argument 0) originates from a field of adt_q ->
+        set of (field, method name)"""
+        orig = Origins(body, depth)
+        out = set()
+        pref = adt_q + "."
+        for c in body.calls:
+            if c.bb not in blocks or not c.args:
+                continue
+            at = orig.atoms(c.args[0])
+            for a in at:
+                if a[0] == "field" and isinstance(a[1], str) and a[1].startswith(pref):
+                    out.add((a[1][len(pref):], c.name))
+        return out
+
     def variant_blocks(self, body, enum_q, variant, switches=None):
         """blocks reachable only through the arm of `variant` (dominated by that edge) for the
         first-level switches on enum_q: returns the set of blocks reachable from entry only
         via (switch, variant) edges"""
+        self._hint = body.crate
         idx = self.variant_index(enum_q, variant)
         sws = switches if switches is not None else self.enum_switches(body, enum_q)
         edges = []
